@@ -501,3 +501,43 @@ Example pr_example :
     [ESent 0 1; ESent 0 2; EDelivered 0 1 (Val 9); EDelivered 0 2 (Val 9); EObserved 0 100 (Val 9);
      EObserved 0 101 (Val 9); EObserved 3 102 (Fail 5); ERefused 0 true].
 Proof. vm_compute. reflexivity. Qed.
+
+(* ======================= OneShotObserverList ======================= *)
+Lemma oso_asserts : ob_fire_asserts_unfired = true.
+Proof. reflexivity. Qed.
+
+Lemma oso_after_fire ops : forall s r, o_fired s = Some r ->
+  forall w r', In (OEventually w r') (snd (oso_run s ops)) -> r' = r.
+Proof.
+  induction ops as [|o ops IH]; intros s r Hf w r'; cbn [oso_run].
+  - cbn. intros [].
+  - destruct (oso_step s o) as [s1 t1] eqn:E1. destruct (oso_run s1 ops) as [s2 t2] eqn:E2. cbn [snd].
+    intros Hin. apply in_app_or in Hin. unfold oso_step in E1. rewrite Hf, oso_asserts in E1.
+    destruct o; injection E1 as <- <-.
+    + destruct Hin as [[H|[]]|H]; [injection H as _ <-; reflexivity|].
+      eapply (IH s r Hf w r'). rewrite E2. exact H.
+    + destruct Hin as [[H|[]]|H]; [discriminate|]. eapply (IH s r Hf w r'). rewrite E2. exact H.
+Qed.
+
+Lemma oso_before_fire ops : forall s, o_fired s = None ->
+  exists r, forall w r', In (OEventually w r') (snd (oso_run s ops)) -> r' = r.
+Proof.
+  induction ops as [|o ops IH]; intros s Hf; cbn [oso_run].
+  - exists 0. cbn. intros w r' [].
+  - destruct (oso_step s o) as [s1 t1] eqn:E1. destruct (oso_run s1 ops) as [s2 t2] eqn:E2. cbn [snd].
+    unfold oso_step in E1. rewrite Hf in E1. destruct o; injection E1 as <- <-.
+    + destruct (IH {| o_fired := None; o_watchers := o_watchers s ++ [w] |} eq_refl) as (r & Hr).
+      exists r. intros w0 r' Hin. cbn [app] in Hin. apply (Hr w0). rewrite E2. exact Hin.
+    + exists r. intros w0 r' Hin. apply in_app_or in Hin as [H|H].
+      * apply in_map_iff in H as (x & Hx & _). injection Hx as _ <-. reflexivity.
+      * eapply (oso_after_fire ops {| o_fired := Some r; o_watchers := [] |} r eq_refl w0 r'). rewrite E2. exact H.
+Qed.
+
+(* every subscriber of a one-shot observer list -- before or after it fired -- is sent (eventually, never
+   synchronously: the model only emits eventual-sends) one and the same result *)
+Theorem oso_single_result : forall ops w1 r1 w2 r2,
+  In (OEventually w1 r1) (snd (oso_run oso0 ops)) -> In (OEventually w2 r2) (snd (oso_run oso0 ops)) -> r1 = r2.
+Proof.
+  intros ops w1 r1 w2 r2 H1 H2. destruct (oso_before_fire ops oso0 eq_refl) as (r & Hr).
+  rewrite (Hr _ _ H1), (Hr _ _ H2). reflexivity.
+Qed.
